@@ -47,6 +47,21 @@ var props = map[string]*propSpec{
 		QuickBudget:    50 * time.Second,
 		ThoroughBudget: 15 * time.Minute,
 	},
+	"C02": {
+		Level: "exploration",
+		Rule: "one run = configuration x 1-4 RPCs whose handlers execute a random permutation of SetHeader/SendHeader/Send/SetTrailer ending in a random status (17 codes, messages, details), random request metadata (outgoing context and/or per-RPC credentials, -bin values), random call options and caller Header/Recv/Trailer orders x schedule; " +
+			"non-trivial = at least one RPC ran to its handler's own return and was compared against the reference model; distinct = distinct schedule digests",
+		Families:       []famPlan{{Family: "meta", Weight: 3}, {Family: "meta", Weight: 1, Param: map[string]int{"nonutf8": 1}}},
+		QuickBudget:    50 * time.Second,
+		ThoroughBudget: 15 * time.Minute,
+	},
+	"C13": {
+		Level:          "exploration",
+		Rule:           "every frame of every run is fed to the protocol monitor (appendix A of DESIGN.md); non-trivial = the run carried at least 20 frames; distinct = distinct schedule digests",
+		Families:       []famPlan{{Family: "msgflow", Weight: 1}},
+		QuickBudget:    50 * time.Second,
+		ThoroughBudget: 15 * time.Minute,
+	},
 }
 
 func init() {
